@@ -43,6 +43,7 @@ type bookPairRow struct {
 	reqs                 uint16
 	reqSent, respRecv    uint64
 	selected             bool
+	stats                string // every other counter of the pair (requests received, responses sent, packets, bytes, round-trip times)
 }
 
 type bookModel struct {
@@ -88,7 +89,9 @@ func (m *bookModel) rows() map[string]bookPairRow {
 		sel := a.getSelectedPair()
 		for _, p := range a.checklist {
 			out[p.Local.addr().String()+">"+p.Remote.addr().String()] = bookPairRow{p.id, p.Local.addr().String(), p.Remote.addr().String(), p.Remote.Type().String(), p.state,
-				p.nominated, p.nominateOnBindingSuccess, p.priority(), p.bindingRequestCount, p.RequestsSent(), p.ResponsesReceived(), sel == p}
+				p.nominated, p.nominateOnBindingSuccess, p.priority(), p.bindingRequestCount, p.RequestsSent(), p.ResponsesReceived(), sel == p,
+				fmt.Sprintf("reqRecv=%d respSent=%d pkts=%d/%d bytes=%d/%d rtt=%v/%v", p.RequestsReceived(), p.ResponsesSent(), p.PacketsSent(), p.PacketsReceived(),
+					p.BytesSent(), p.BytesReceived(), p.CurrentRoundTripTime(), p.TotalRoundTripTime())}
 		}
 	})
 
